@@ -52,7 +52,36 @@ func wireOpts(i int, r *rand.Rand) spec.GenOpts {
 	}
 }
 
-var reSetVar = regexp.MustCompile(`(?m)^var (\w+) = wire\.NewSet\(`)
+// wireSetNames lists the package-level variables of a wire file that are
+// initialised with wire.NewSet(...), however the declaration is spelled (one
+// var each, a var block, several names in one specification).
+func wireSetNames(src string) []string {
+	f, err := parser.ParseFile(token.NewFileSet(), "wire.go", src, 0)
+	if err != nil {
+		return nil
+	}
+	var out []string
+	for _, d := range f.Decls {
+		gd, ok := d.(*ast.GenDecl)
+		if !ok || gd.Tok != token.VAR {
+			continue
+		}
+		for _, sp := range gd.Specs {
+			vs := sp.(*ast.ValueSpec)
+			for i, n := range vs.Names {
+				if i >= len(vs.Values) {
+					continue
+				}
+				if ce, ok := vs.Values[i].(*ast.CallExpr); ok {
+					if se, ok := ce.Fun.(*ast.SelectorExpr); ok && se.Sel.Name == "NewSet" {
+						out = append(out, n.Name)
+					}
+				}
+			}
+		}
+	}
+	return out
+}
 
 // prepareWire writes both copies, runs wire, migrate and the generator.
 func prepareWire(w *runner.Workspace, specs []*spec.Spec, repeatMigrate int) []*wirePair {
@@ -78,14 +107,10 @@ func prepareWire(w *runner.Workspace, specs []*spec.Spec, repeatMigrate int) []*
 			}
 		}
 		if b, err := os.ReadFile(filepath.Join(p.WDir, "wire_sets.go")); err == nil {
-			for _, m := range reSetVar.FindAllStringSubmatch(string(b), -1) {
-				p.SetNames = append(p.SetNames, m[1])
-			}
+			p.SetNames = append(p.SetNames, wireSetNames(string(b))...)
 		}
 		for _, content := range s.ExtraWireFiles {
-			for _, m := range reSetVar.FindAllStringSubmatch(content, -1) {
-				p.SetNames = append(p.SetNames, m[1])
-			}
+			p.SetNames = append(p.SetNames, wireSetNames(content)...)
 		}
 		pairs = append(pairs, p)
 	}
